@@ -1,63 +1,134 @@
+mod check;
 mod explore;
+mod oracle;
+mod props;
 mod world;
 
-use std::sync::Arc;
-use world::*;
+use std::process::exit;
+
+use check::{run_families, Family};
+
+fn families(prop: &str, tier: &str) -> Option<Vec<Family>> {
+    Some(match prop {
+        "C01" => props::c01(tier),
+        _ => return None,
+    })
+}
+
+fn usage() -> ! {
+    eprintln!("usage: simx check <PROP> --tier quick|thorough --out <fragment.json> [--replays <dir>] [--budget <s>]\n       simx replay <file.json>");
+    exit(2)
+}
 
 fn main() {
+    // Panics inside model code are part of the scenarios: keep them quiet.
     std::panic::set_hook(Box::new(|_| {}));
-    // Fan-out / fan-in smoke bench: S -> {B, C} -> D, cap(D)=1.
-    let s = NodeSpec::new("S", 2)
-        .script(1, vec![Op::Send { port: 0, tag: 2, val: Val::In }])
-        .out(vec![
-            Conn::To { node: 1, mode: Mode::Plain },
-            Conn::To { node: 2, mode: Mode::Plain },
-        ]);
-    let b = NodeSpec::new("B", 2)
-        .script(2, vec![
-            Op::Send { port: 0, tag: 3, val: Val::InPlus(10) },
-            Op::Send { port: 0, tag: 3, val: Val::InPlus(20) },
-        ])
-        .out(vec![Conn::To { node: 3, mode: Mode::Plain }]);
-    let c = NodeSpec::new("C", 2)
-        .script(2, vec![
-            Op::Send { port: 0, tag: 3, val: Val::InPlus(30) },
-            Op::Send { port: 0, tag: 3, val: Val::InPlus(40) },
-        ])
-        .out(vec![Conn::To { node: 3, mode: Mode::Plain }]);
-    let d = NodeSpec::new("D", 1);
-    let spec = Arc::new(BenchSpec::new(vec![s, b, c, d]));
-    let sc = Scenario {
-        spec,
-        cmds: vec![Cmd::ProcEvent { node: 0, tag: 1, val: 1 }],
-        label: "smoke".into(),
-    };
-    let t0 = std::time::Instant::now();
-    let mut outcomes = std::collections::BTreeSet::new();
-    let mut first = None;
-    let stats = explore::explore(None, 10_000_000, |prefix| {
-        let out = run_once(&sc, prefix, true);
-        let order: Vec<i64> = out
-            .log
-            .iter()
-            .filter_map(|e| match e {
-                Ev::HS { node: 3, val, .. } => Some(*val),
-                _ => None,
-            })
-            .collect();
-        outcomes.insert(order);
-        if first.is_none() {
-            first = Some(out.log.clone());
-        }
-        assert_eq!(out.leaked, 0, "leak");
-        Ok((out.chooser, true))
-    })
-    .unwrap();
-    println!("{:?} outcomes={} {:?}", stats, outcomes.len(), t0.elapsed());
-    for o in &outcomes {
-        println!("  {:?}", o);
+    let args: Vec<String> = std::env::args().collect();
+    if args.len() < 3 {
+        usage();
     }
-    for e in first.unwrap() {
-        println!("{:?}", e);
+    match args[1].as_str() {
+        "check" => {
+            let prop = args[2].clone();
+            let mut tier = "quick".to_string();
+            let mut out = None;
+            let mut replays = "/verif/replays".to_string();
+            let mut budget: Option<f64> = None;
+            let mut i = 3;
+            while i < args.len() {
+                match args[i].as_str() {
+                    "--tier" => {
+                        tier = args[i + 1].clone();
+                        i += 2;
+                    }
+                    "--out" => {
+                        out = Some(args[i + 1].clone());
+                        i += 2;
+                    }
+                    "--replays" => {
+                        replays = args[i + 1].clone();
+                        i += 2;
+                    }
+                    "--budget" => {
+                        budget = args[i + 1].parse().ok();
+                        i += 2;
+                    }
+                    _ => usage(),
+                }
+            }
+            let Some(fams) = families(&prop, &tier) else {
+                eprintln!("simx: unknown property {}", prop);
+                exit(2)
+            };
+            let budget = budget.unwrap_or(if tier == "quick" { 40.0 } else { 1500.0 });
+            let rep = run_families(&prop, &tier, fams, budget, &format!("{}/{}", replays, prop));
+            let js = rep.to_json();
+            let text = serde_json::to_string_pretty(&js).unwrap();
+            match out {
+                Some(p) => std::fs::write(p, text).unwrap(),
+                None => println!("{}", text),
+            }
+            if let Some(m) = &rep.machinery_error {
+                eprintln!("simx: MACHINERY ERROR: {}", m);
+                exit(2);
+            }
+            for v in &rep.violations {
+                println!("VIOLATION property={} replay={}", prop, v.replay);
+                eprintln!("  [{}] {} :: {}", v.tag, v.label, v.msg);
+            }
+            eprintln!(
+                "simx {} {}: {} executions, {} distinct outcomes, {} violations, {:.1}s",
+                prop,
+                tier,
+                rep.evaluations,
+                rep.distinct_nontrivial,
+                rep.violations.len(),
+                rep.wall_s
+            );
+            exit(if rep.violations.is_empty() { 0 } else { 1 });
+        }
+        "replay" => {
+            let text = std::fs::read_to_string(&args[2]).unwrap_or_else(|e| {
+                eprintln!("cannot read {}: {}", args[2], e);
+                exit(2)
+            });
+            let js: serde_json::Value = serde_json::from_str(&text).unwrap();
+            let prop = js["property"].as_str().unwrap().to_string();
+            let fam_name = js["family"].as_str().unwrap().to_string();
+            let idx = js["scenario_index"].as_u64().unwrap() as usize;
+            let choices: Vec<u16> = js["choices"]
+                .as_array()
+                .unwrap()
+                .iter()
+                .map(|c| c.as_u64().unwrap() as u16)
+                .collect();
+            // The scenario is regenerated from the family enumeration (both tiers are tried).
+            for tier in ["quick", "thorough"] {
+                let Some(fams) = families(&prop, tier) else { exit(2) };
+                let Some(fam) = fams.iter().find(|f| f.name == fam_name) else { continue };
+                let Some(sc) = fam.scenarios.get(idx) else { continue };
+                if Some(sc.label.as_str()) != js["label"].as_str() {
+                    continue;
+                }
+                let out = world::run_once(sc, &choices, true);
+                let an = oracle::analyze(sc, &out);
+                for e in &out.log {
+                    println!("{:?}", e);
+                }
+                let v = check::selected(fam, sc, &out, &an);
+                if v.is_empty() {
+                    println!("replay: property held on this execution");
+                    exit(0);
+                }
+                for x in &v {
+                    println!("[{}] {}", x.tag, x.msg);
+                }
+                println!("VIOLATION property={} replay={}", prop, args[2]);
+                exit(1);
+            }
+            eprintln!("replay: scenario not found");
+            exit(2);
+        }
+        _ => usage(),
     }
 }
